@@ -409,7 +409,10 @@ pub fn gen_predefined_name_cases(rng: &mut Rng, out: &mut Vec<String>) {
 /// nested calls and indices), probed at every identifier start, at 0:0 / 0:1 and behind every `(` and `,`;
 /// with the specification twins.
 pub fn gen_corner_docs(rng: &mut Rng, which: usize, out: &mut Vec<String>) {
-    let text = match which % 10 {
+    let text = match which % 11 {
+        // a type named like the internal name of an anonymous array type would be if it were built from the procedure's
+        // and the variable's names (`p_x`, `p.x`-like spellings are not identifiers; `p_x` is)
+        10 => "type p_x = array [2] of int;\ntype q_a = array [2] of int;\nproc q(ref a: array [2] of int) { a[0] := 1; }\nproc p() {\n  var x: array [2] of int;\n  var y: p_x;\n  x[0] := 1; y[1] := x[0];\n}\nproc main() { p(); }\n".to_string(),
         // documentation comments WITHOUT text (bare `//`), alone and next to one with text
         8 => "//\ntype t = int;\n//\n//\nproc p(\n//\na: int, ref b: t) {\n  //\n  var v: t;\n  v := a; b := v;\n}\n//\n// real doc\nproc q() { }\nproc main() { var x: t; p(1, x); q(); }\n".to_string(),
         9 => "//  \nproc r(//\n ref k: int) { k := 1; }\n//\t\nproc main() { var n: int; r(n); }\n".to_string(),
@@ -653,6 +656,12 @@ pub fn gen_fmt(rng: &mut Rng, n: usize, which: &str, out: &mut Vec<String>) {
                     let (b, _, _) = gen_prog::layout(rng, &toks, &Layout { comment_pct: 0, comment_gaps: None, compact: false });
                     out.push(format!("PROPFMTCANON {} {} {}", hex_str(&a), hex_str(&b), opts));
                     // whitespace-only variants of the text and of its canonical form
+                    if i % 7 == 3 {
+                        // ... and of a text whose last token is a comment (with and without its line terminator)
+                        let t2 = format!("{}\n// the end", text.trim_end());
+                        out.push(format!("PROPFMTWS {} {}", hex_str(&t2), opts));
+                        out.push(format!("PROPFMTCANON {} {} {}", hex_str(&t2), hex_str(&format!("{}\n", t2)), opts));
+                    }
                     if i % 2 == 0 {
                         out.push(format!("PROPFMTWS {} {}", h, opts));
                     } else if let Some(c) = formatted(&text, sp, ts as u32) {
